@@ -1,6 +1,7 @@
 import GlueVerif.Lemmas.C17Step
 /-!
-Helper lemmas for C17, part 3: `update_values_from_data` (with repair F13) preserves `Inv`.
+Helper lemmas for C17, part 3: `update_values_from_data` (with repair F13) preserves `Inv`; every call
+(arbitrary arguments) preserves `Inv` (`stepCore_inv`, `step_inv`, `inv_run`).
 -/
 namespace GlueVerif.Lemmas.C17
 open GlueVerif.DataStruct
